@@ -293,6 +293,94 @@ def atom_on_special_cases(part, seed):
     part.nstates(len(sites))
 
 
+def many_sites(ops, M, n_sites, shift, dmin=2.6):
+    """n_sites general positions (fractional), every symmetry image of every site at least dmin A from every other image (all lattice
+    translates): accepted one by one from a deterministic low-discrepancy sequence"""
+    g = 1.22074408460575947536
+    alpha = np.array([1 / g, 1 / g ** 2, 1 / g ** 3])
+    R = [np.array(r, dtype=float).reshape(3, 3) for r, _ in ops]
+    T = [np.array(t, dtype=float) / 12.0 for _, t in ops]
+    cells = np.array(list(itertools.product((-1, 0, 1), repeat=3)), dtype=float)
+    rf = min(0.49, dmin / float(np.min(lattice.perpendicular_widths(M))))      # fractional radius that contains the dmin sphere
+    acc_img = np.zeros((0, 3))
+    tree = None
+    out = []
+    k = 0
+    while len(out) < n_sites and k < 40 * n_sites + 400:
+        k += 1
+        f = np.mod(0.5 + shift + k * alpha, 1.0)
+        img = np.mod(np.array([r @ f + t for r, t in zip(R, T)]), 1.0)
+        img[img >= 1.0] = 0.0
+        # the site's own images among themselves (a site near a symmetry element), then against everything accepted so far
+        d = (img[:, None, None, :] - img[None, :, None, :] + cells[None, None, :, :]) @ M
+        dist = np.linalg.norm(d, axis=3)
+        dist[np.arange(len(img)), np.arange(len(img)), 13] = 1e9
+        ok = dist.min() >= dmin
+        if ok and tree is not None:
+            for j, near in enumerate(tree.query_ball_point(img, rf * 1.7321, p=2.0)):
+                if near:
+                    dd = (acc_img[near][:, None, :] - img[j] + cells[None, :, :]).reshape(-1, 3) @ M
+                    if np.linalg.norm(dd, axis=1).min() < dmin:
+                        ok = False
+                        break
+        if ok:
+            out.append(f)
+            acc_img = np.vstack([acc_img, img])
+            tree = cKDTree(acc_img, boxsize=1.0)
+    return np.array(out)
+
+
+def many_sites_worker(part, job):
+    """
+    a medium-sized asymmetric unit (tens to a hundred general sites of four elements, far enough apart to stay single atoms): the
+    unit cell contents, the P1 cell, a supercell and the translational-symmetry crystal are all the arrangement that the reference
+    expansion (every operation applied to every site) gives - whatever the number of sites
+    """
+    row, n_sites = job
+    sk = "%d:%s" % (row["number"], row["choice"])
+    ops = [symm.decode(c) for c in row["symops"]]
+    cell = mol.scaled_cell(row["number"], row["choice"], len(ops), max(1, int(n_sites * 0.45)), 0)
+    M = lattice.cell_matrix(*cell)
+    frac = many_sites(ops, M, n_sites, 0.0137 * (row["number"] % 11))
+    case = {"kind": "many-sites", "number": row["number"], "choice": row["choice"], "n_sites": n_sites}
+    if len(frac) < n_sites:
+        part.skip("could not place %d well-separated general sites" % n_sites)
+        return
+    symbols = [("C", "N", "O", "F")[i % 4] for i in range(n_sites)]
+    zs = np.array([(6, 7, 8, 9)[i % 4] for i in range(n_sites)])
+    ref_f = np.vstack([np.mod(frac @ np.array(r, dtype=float).reshape(3, 3).T + np.array(t, dtype=float) / 12.0, 1.0) for r, t in ops])
+    ref = (np.tile(zs, len(ops)), ref_f, M)
+    part.ev()
+    try:
+        c = xtal.make_crystal(row["number"], row["choice"], cell, symbols, frac)
+        X = arrangement(c)
+    except Exception as e:
+        part.fail("many-sites:raise", "a crystal of %d general sites in %s raised %r" % (n_sites, sk, e), case)
+        return
+    part.tr()
+    tagn = "n>=64" if n_sites >= 64 else "n<64"
+    if len(X[0]) != len(ref[0]):
+        part.fail("many-sites:unit-cell-count:%s" % tagn, "%d general sites in %s (%d operations): the unit cell holds %d atoms, expected %d" % (n_sites, sk, len(ops), len(X[0]), len(ref[0])), case)
+        return
+    same_arrangement(part, ref, X, "many-sites:unit-cell:%s" % tagn, "unit cell contents of %d general sites in %s vs every operation applied to every site" % (n_sites, sk), case)
+    for route, size in (("as_P1_supercell", (1, 1, 1)), ("as_P1_supercell", (1, 2, 1)), ("to_translational_symmetry", (1, 1, 1))):
+        part.tr()
+        try:
+            cf = xtal.fresh_from_state(xtal.public_state(c))
+            p = cf.as_P1_supercell(size) if route == "as_P1_supercell" else cf.to_translational_symmetry(supercell=size) if size != (1, 1, 1) else cf.to_translational_symmetry()
+            Y = arrangement(p)
+        except Exception as e:
+            part.fail("many-sites:raise:%s" % route, "%s%s of %d general sites in %s raised %r" % (route, size, n_sites, sk, e), case)
+            continue
+        nn = size[0] * size[1] * size[2]
+        if len(Y[0]) != nn * len(ref[0]):
+            part.fail("many-sites:count:%s:%s" % (route, tagn), "%s%s of %d general sites in %s holds %d atoms, expected %d" % (route, size, n_sites, sk, len(Y[0]), nn * len(ref[0])), case)
+            continue
+        same_arrangement(part, ref, Y, "many-sites:arrangement:%s:%s" % (route, tagn), "%s%s of %d general sites in %s vs every operation applied to every site" % (route, size, n_sites, sk), case)
+    part.state(("many-sites", sk, n_sites))
+    part.outcome(("many-sites", len(ops), n_sites // 16))
+
+
 def p1_worker(part, job, seed, thorough):
     row, mode = job
     centres = [(0.137, 0.289, 0.611), (0.983, 0.289, 0.017)]
@@ -488,6 +576,21 @@ def run(ctx):
     ctx.pmap(p1_worker, jobs, seed=ctx.seed, thorough=ctx.thorough)
     special_position_cases(ctx, ctx.seed)
     atom_on_special_cases(ctx, ctx.seed)
+    # medium-sized asymmetric units: every setting with one size of a rotating ladder (quick) / with three sizes (thorough); every size
+    # 1..100 in four settings whose operations are neither diagonal nor symmetric matrices (hexagonal axes, a 4_1 screw, a d glide)
+    msizes = (24, 48, 63, 64, 65, 72, 96, 100, 128)
+    mjobs = []
+    for i, r in enumerate(table):
+        if len(r["symops"]) > 48 or not (ctx.thorough or (r["index_in_number"] == 0 and len(r["symops"]) <= 24 and (r["number"] + ctx.seed) % 3 == 0)):
+            continue        # quick: a third of the settings per VERIF_SEED (rotating), all of them in the thorough tier       # (the library builds one Molecule object per lone atom: 48 operations x 100 sites take ~40 s per crystal)
+        for n_ in ((msizes[(i + ctx.seed) % len(msizes)],) if not ctx.thorough else (msizes[i % 9], msizes[(i + 3) % 9], msizes[(i + 6) % 9])):
+            mjobs.append((r, n_))
+    rows_by = {(r["number"], r["choice"]): r for r in table}
+    for key in ((146, "H"), (76, ""), (169, ""), (43, "")):
+        for n_ in range(1, 101) if ctx.thorough else range(4, 101, 4):
+            mjobs.append((rows_by[key], n_))
+    mjobs.sort(key=lambda j: -len(j[0]["symops"]) * j[1])
+    ctx.pmap(many_sites_worker, mjobs)
     specs = []
     for n in R_GROUPS:
         for ac in AC:
@@ -508,6 +611,9 @@ def run(ctx):
 
 
 def replay(ctx, case):
+    if case.get("kind") == "many-sites":
+        row = [r for r in symm.load_table() if r["number"] == case["number"] and r["choice"] == case["choice"]][0]
+        return many_sites_worker(ctx, (row, case["n_sites"]))
     if case.get("kind") == "atom-on-special":
         return atom_on_special_cases(ctx, ctx.seed)
     if case.get("kind") == "special":
